@@ -193,8 +193,9 @@ func translationsAllKind(reg *template.Registry, kind int) *jsMemBundle {
 
 func directC03Modes(g *G, rep *Report) {
 	directC03Msg(g, rep)
+	directC03SharedNs(g, rep)
 	nsAttrs := []string{"", "true", "false", "contextual"}
-	tAttrs := []string{"", "true", "false"}
+	tAttrs := []string{"", "true", "false", "contextual"}
 	attr := func(a string) string {
 		if a == "" {
 			return ""
@@ -272,6 +273,64 @@ func directC03Modes(g *G, rep *Report) {
 								rep.DistinctNT++
 							}
 						}
+					}
+				}
+			}
+		}
+	}
+}
+
+// directC03SharedNs: one namespace spread over two files whose {namespace} tags carry DIFFERENT autoescape
+// attributes: each template is escaped according to the tag of the file it stands in (and its own attribute),
+// whichever file was added first, rendered directly and as the other file's callee.
+func directC03SharedNs(g *G, rep *Report) {
+	attrs := []string{"", "true", "false", "contextual"}
+	attr := func(a string) string {
+		if a == "" {
+			return ""
+		}
+		return " autoescape=\"" + a + "\""
+	}
+	esc := "T&lt;&amp;&quot;&#39;&gt;T"
+	show := func(a string) string {
+		if a == "false" {
+			return taint
+		}
+		return esc
+	}
+	for _, a := range attrs {
+		for _, b := range attrs {
+			for _, tb := range []string{"", "true", "false"} {
+				for order := 0; order < 2; order++ {
+					fa := srcFile{"sh_a.soy", "{namespace sh" + attr(a) + "}\n/** @param p */\n{template .a}\nA({$p}){call .b data=\"all\"/}A'({$p})\n{/template}\n"}
+					fb := srcFile{"sh_b.soy", "{namespace sh" + attr(b) + "}\n/** @param p */\n{template .b" + attr(tb) + "}\nB[{$p}]\n{/template}\n"}
+					fs := []srcFile{fa, fb}
+					if order == 1 {
+						fs = []srcFile{fb, fa}
+					}
+					reg, err := compileBundle(fs)
+					rep.Evaluations++
+					if err != nil {
+						rep.Distribution["shared-ns:compile-error"]++
+						continue
+					}
+					effB := b
+					if tb != "" {
+						effB = tb
+					}
+					d := toData(map[string]interface{}{"p": taint})
+					outA, classA := renderSafe(reg, "sh.a", d, nil)
+					outB, classB := renderSafe(reg, "sh.b", d, nil)
+					wantB := "B[" + show(effB) + "]"
+					wantA := "A(" + show(a) + ")" + wantB + "A'(" + show(a) + ")"
+					if classA != "OK" || classB != "OK" || outA != wantA || outB != wantB {
+						rep.Violations = append(rep.Violations, Viol{
+							Key:  "shared-namespace-mode:" + a + "+" + b + "/" + tb + ":order" + strconv.Itoa(order),
+							What: "two files share the namespace sh with different autoescape attributes: a template is not escaped according to the {namespace} tag of its own file",
+							Req:  req("render", encSources(fs), hxs("sh.a")), Note: "file a: " + a + ", file b: " + b + ", template b: " + tb + ", insertion order " + strconv.Itoa(order),
+							Impl: classA + " " + outA + " | " + classB + " " + outB, Want: wantA + " | " + wantB})
+					} else if a != effB {
+						rep.DistinctNT++
 					}
 				}
 			}
